@@ -140,6 +140,27 @@ def replay(case):
                                 out.append(('%s:scaled:%s' % (tag, kind), 'initial value scaled by 2^-44: state %d is not the scaled state of the '
                                             'unscaled run (relative deviation %.3e)' % (k_, np.linalg.norm(a_ - b_) / max(np.linalg.norm(b_), 1e-300))))
                                 break
+                    if normalize == 0 and not with_prev and isinstance(sol, list) and len(sol) == len(steps) + 1:
+                        # second use of one operator object: integrated once, re-scaled in place by the caller (first core x 2),
+                        # integrated again with half the step sizes - h A is the same, so is the trajectory
+                        def run_(op_, st_):
+                            if sch == 'explicit_euler':
+                                return ode.explicit_euler(op_, x0, st_, threshold=0, max_rank=200, normalize=0, progress=False)
+                            if sch == 'hod':
+                                return ode.hod(op_, x0, st_[0], len(st_), order=2 * cfg['m'], threshold=0, max_rank=200, normalize=0, progress=False)
+                            f__ = ode.implicit_euler if sch == 'implicit_euler' else ode.trapezoidal_rule
+                            return f__(op_, x0, guess, st_, repeats=1, tt_solver=solver, threshold=0, max_rank=np.inf, micro_solver=micro,
+                                       normalize=0, progress=False)
+                        A2 = A.copy()
+                        run_(A2, steps)
+                        A2.cores[0] = 2.0 * A2.cores[0]
+                        for sig, msg in check_trajectory(run_(A2, steps), x0, 2 * Ad, steps, sch, P, isl, 0, False, prev, dims):
+                            out.append(('%s:second-use:%s:%s' % (tag, sig, kind), 'operator object re-scaled in place (x 2) between two runs with the '
+                                        'same step sizes: %s (dims %r)' % (msg, dims)))
+                        sol2 = run_(A2, [h_ / 2 for h_ in steps])
+                        for sig, msg in check_trajectory(sol2, x0, Ad, steps, sch, P, isl, 0, False, prev, dims):
+                            out.append(('%s:second-use:%s:%s' % (tag, sig, kind), 'operator object re-scaled in place (x 2) between two runs, step '
+                                        'sizes halved: %s (dims %r)' % (msg, dims)))
                     res = check_trajectory(sol, x0, Ad, steps, sch, P, isl, normalize, with_prev, prev, dims)
                     for sig, msg in res:
                         if sch == 'hod' and normalize:
